@@ -195,6 +195,11 @@ def gen(rng, i, tier):
         if not sats[c["sat"]][0]:
             c["sat"] = rng.choice(additive)
             c["solver"] = bool(sats[c["sat"]][1])
+    if sats[c["sat"]][1] and _scale_of(e) > 1:
+        # (again, after the re-draws above) no solver-backed measure on integers far beyond 2**53
+        pool = [s for s in additive if not sats[s][1]]
+        c["sat"] = rng.choice(pool)
+        c["solver"] = rule == "maxw_ilp"
     if sats[c["sat"]][1]:
         # MIP-backed normalisers: a ballot whose projects all cost 0 gives CBC an all-zero knapsack row,
         # on which the bundled build aborts the process (excluded by the property) -> no zero costs here
